@@ -644,12 +644,15 @@ func handleInputStream(s *Session, handler Handler) (err error) {
 			Type:      stanza.Cancel,
 			Condition: stanza.ServiceUnavailable,
 		}.TokenReader()))
-		if err != nil {
+		// If the output stream was closed in the meantime there is nobody left
+		// to reply to, but the input stream must still be served until the peer
+		// closes it.
+		if err != nil && !errors.Is(err, ErrOutputStreamClosed) {
 			return err
 		}
 	}
 
-	if err := w.Flush(); err != nil {
+	if err := w.Flush(); err != nil && !errors.Is(err, ErrOutputStreamClosed) {
 		return err
 	}
 
